@@ -29,8 +29,8 @@ Definition w16 (x : Z) : Z := x mod 65536.
 Definition w32 (x : Z) : Z := x mod 4294967296.
 Definition w64 (x : Z) : Z := x mod 18446744073709551616.
 
-(* literal of createBufferManager that is not a named Go constant: `.../100`, `sumPercent > 100` *)
-Definition percent_base : Z := 100.
+(* the two literals of createBufferManager (`sumPercent > 100`, `.../100`) are the generated constants
+   c_percentSumMax and c_percentDivisor of Gen/Consts.v *)
 
 Inductive outcome (A : Type) : Type :=
 | Ok (v : A)
@@ -135,10 +135,10 @@ Fixpoint create_loop_gen chk (pairs : list (Z * Z)) (rc memLen off sum : Z) (m :
   | [] => Ok ([], off, m)
   | (size, pct) :: rest =>
     let sum' := w32 (sum + pct) in
-    if percent_base <? sum' then Err 4 else
+    if c_percentSumMax <? sum' then Err 4 else
     let stride := w32 (size + c_bufferHeaderSize) in
     if stride =? 0 then Panic 4 else           (* integer divide by zero *)
-    let num := w32 (w64 (rc * pct) / percent_base) / stride in
+    let num := w32 (w64 (rc * pct) / c_percentDivisor) / stride in
     let need := list_mem_size num size in
     match create_fbl_gen chk num size memLen off m with
     | Err e => Err e
@@ -277,14 +277,21 @@ Definition create_q (base dataLen dataCap cap : Z) (m : mem) : outcome (queue * 
 
 Record qmanager := { qm_send : queue; qm_recv : queue }.
 
-(* createQueueManager / createQueueManagerWithMemFd (the part after mmap):
-   sendQueue = mem[:memSize/2], recvQueue = mem[memSize/2:] *)
-Definition create_qm (cap : Z) (m : mem) : outcome (qmanager * Z * mem) :=
+(* the half of the queue mapping a queue manager hands to one of its queues, by the generated half
+   index of Gen/Consts.v (the off_halves constants): 0 = mem[:total/2] (length total/2, capacity total),
+   1 = mem[total/2:] (length = capacity = total - total/2).  Result: (base, len, cap). *)
+Definition half_slice (total idx : Z) : Z * Z * Z :=
+  if idx =? 0 then (0, total / 2, total) else (total / 2, total - total / 2, total - total / 2).
+
+(* createQueueManager / createQueueManagerWithMemFd (the part after mmap); the struct literal evaluates
+   sendQueue first.  si / ri: which half the send / receive queue is created on. *)
+Definition create_qm_gen (si ri : Z) (cap : Z) (m : mem) : outcome (qmanager * Z * mem) :=
   let memSize := queue_mem_size cap * c_queueCount in
-  let half := memSize / 2 in
-  match create_q 0 half memSize cap m with
+  let '(bs, ls, cs) := half_slice memSize si in
+  let '(br, lr, cr) := half_slice memSize ri in
+  match create_q bs ls cs cap m with
   | Ok (s, m1) =>
-    match create_q half (memSize - half) (memSize - half) cap m1 with
+    match create_q br lr cr cap m1 with
     | Ok (r, m2) => Ok ({| qm_send := s; qm_recv := r |}, memSize, m2)
     | Err e => Err e
     | Panic p => Panic p
@@ -293,13 +300,13 @@ Definition create_qm (cap : Z) (m : mem) : outcome (qmanager * Z * mem) :=
   | Panic p => Panic p
   end.
 
-(* mappingQueueManager / mappingQueueManagerMemfd:
-   sendQueue = mem[mappingSize/2:], recvQueue = mem[:mappingSize/2] *)
-Definition map_qm (mappingSize : Z) (m : mem) : outcome qmanager :=
-  let half := mappingSize / 2 in
-  match map_q half (mappingSize - half) (mappingSize - half) m with
+(* mappingQueueManager / mappingQueueManagerMemfd *)
+Definition map_qm_gen (si ri : Z) (mappingSize : Z) (m : mem) : outcome qmanager :=
+  let '(bs, ls, cs) := half_slice mappingSize si in
+  let '(br, lr, cr) := half_slice mappingSize ri in
+  match map_q bs ls cs m with
   | Ok s =>
-    match map_q 0 half mappingSize m with
+    match map_q br lr cr m with
     | Ok r => Ok {| qm_send := s; qm_recv := r |}
     | Err e => Err e
     | Panic p => Panic p
@@ -307,3 +314,11 @@ Definition map_qm (mappingSize : Z) (m : mem) : outcome qmanager :=
   | Err e => Err e
   | Panic p => Panic p
   end.
+
+(* the four functions of queue.go, each with the halves the CURRENT source gives its two queues *)
+Definition create_qm := create_qm_gen off_halves_createQueueManager_sendQueue off_halves_createQueueManager_recvQueue.
+Definition create_qm_memfd :=
+  create_qm_gen off_halves_createQueueManagerWithMemFd_sendQueue off_halves_createQueueManagerWithMemFd_recvQueue.
+Definition map_qm := map_qm_gen off_halves_mappingQueueManager_sendQueue off_halves_mappingQueueManager_recvQueue.
+Definition map_qm_memfd :=
+  map_qm_gen off_halves_mappingQueueManagerMemfd_sendQueue off_halves_mappingQueueManagerMemfd_recvQueue.
